@@ -31,7 +31,10 @@ ListsUpTo(n) == IF n = 0 THEN {<<>>}
                 ELSE LET prev == ListsUpTo(n - 1) IN prev \cup {Append(l, t) : l \in prev, t \in Tokens}
 Lists == ListsUpTo(MaxLen)
 
-Cases == {[a |-> a, v |-> v, s |-> s] : a \in Lists, v \in Lists, s \in ServerSets}
+\* the case space, split so that TLC's workers can share the enumeration: one seed per Accept-Encoding list
+Seeds == {[a |-> a, v |-> <<>>, s |-> <<>>] : a \in Lists}
+Expand(p) == {[a |-> p.a, v |-> v, s |-> s] : v \in Lists, s \in ServerSets}
+Cases == UNION {Expand(p) : p \in Seeds}
 
 Range(q) == {q[i] : i \in 1..Len(q)}
 
